@@ -92,6 +92,8 @@ func runC15(c *Ctx) {
 		}
 		c.Check("C15.X2", "jwsutil:single-alphabet", n >= 8 && bad == 0, 0, fmt.Sprintf("%d base64 operations in jwsutil, %d not using RawURLEncoding", n, bad))
 	}
+	// (decoded parts are named after the decoder call, also when a small unexported helper wraps it)
+	c.inlineHelpers = true
 	if pc := c.Fn("jwsutil", "parseCompacted"); pc != nil {
 		c.CheckGuard("C15.X2", "parseCompacted:three-parts", pc, nil, cmpReject(`len(strings.Split(jws, ".")) != 3 rejected`, token.NEQ, pathIs(`len(strings.Split($0,"."))`), pathIs("3")))
 		c.CheckGuard("C15.G1", "parseCompacted:empty-signature-rejected", pc, nil, cmpReject("len(signature) == 0 rejected", token.EQL, func(s string) bool {
@@ -104,6 +106,7 @@ func runC15(c *Ctx) {
 				cmpReject("len(payload) == 0 rejected", token.EQL, func(s string) bool { return strings.HasPrefix(s, "len((*encoding/base64.Encoding).DecodeString(") }, pathIs("0"))))
 		}
 	}
+	c.inlineHelpers = false
 	if ser := c.Method("jwsutil", "JSONWebSignature", "SerializeCompact"); ser != nil {
 		fm := ""
 		forEachInstr(ser, func(in ssa.Instruction) {
@@ -325,18 +328,8 @@ func runC16(c *Ctx) {
 			rets = append(rets, c.Path(r.Results[0], nil))
 		}
 		sort.Strings(rets)
-		okC := eqStrs(rets, []string{"((" + bs + " / 8) + 1)", "(" + bs + " / 8)"})
-		// exact when mod == 0
-		exact := false
-		forEachInstr(cs, func(in ssa.Instruction) {
-			if bo, ok := in.(*ssa.BinOp); ok && c.Path(bo, nil) == "(("+bs+" % 8) == 0)" {
-				for _, e := range boolEdges(bo, true) {
-					if r, isR := e.to.Instrs[len(e.to.Instrs)-1].(*ssa.Return); isR && c.Path(r.Results[0], nil) == "("+bs+" / 8)" {
-						exact = true
-					}
-				}
-			}
-		})
+		okC := c.isCeilDiv8(cs, nil, pathIs(bs), 0)
+		exact := okC
 		c.Check("C16.K1", "curveSize=ceil(BitSize/8)", okC && exact, cs.Pos(), fmt.Sprintf("curveSize returns %v", rets))
 	}
 	c.Min("C16.K1", 4)
@@ -682,6 +675,84 @@ func runC16(c *Ctx) {
 	}
 	c.Min("C16.T1", 6)
 	c.Assume("go-jose encodes NIST and Ed25519 keys at full width; btcec.S256 parameters")
+}
+
+// edgeConds: the canonical conditions that hold when control passes from block p to its successor b.
+func (c *Ctx) edgeConds(p, b *ssa.BasicBlock) []string {
+	out := c.condsOf(p)
+	if iff, ok := p.Instrs[len(p.Instrs)-1].(*ssa.If); ok && p.Succs[0] != p.Succs[1] {
+		out = append(out, c.canonCond(iff.Cond, p.Succs[0] == b))
+	}
+	return out
+}
+
+// isCeilDiv8: every exit of f returns ⌈B/8⌉ for the number of bits B (a value whose path, rendered in env, satisfies
+// isBits): (B+7)/8; or B/8 where B%8 == 0 and B/8+1 where it is not (as separate returns or merged in a φ); or what a
+// module helper with those properties returns for B.
+func (c *Ctx) isCeilDiv8(f *ssa.Function, env Env, isBits func(string) bool, depth int) bool {
+	if f == nil || f.Blocks == nil || depth > 3 || len(returnsOf(f)) == 0 {
+		return false
+	}
+	old := c.condEnv
+	c.condEnv = env
+	defer func() { c.condEnv = old }()
+	bitsOf := func(p, pre, suf string) (string, bool) {
+		if strings.HasPrefix(p, pre) && strings.HasSuffix(p, suf) {
+			b := p[len(pre) : len(p)-len(suf)]
+			return b, isBits(b)
+		}
+		return "", false
+	}
+	has := func(conds []string, want ...string) bool {
+		for _, cnd := range conds {
+			for _, w := range want {
+				if cnd == w {
+					return true
+				}
+			}
+		}
+		return false
+	}
+	one := func(v ssa.Value, conds []string) bool {
+		p := c.Path(v, env)
+		if _, ok := bitsOf(p, "((", " + 7) / 8)"); ok {
+			return true
+		}
+		if b, ok := bitsOf(p, "((", " / 8) + 1)"); ok {
+			return has(conds, "(("+b+" % 8) != 0)=true", "(0 < ("+b+" % 8))=true")
+		}
+		if b, ok := bitsOf(p, "(", " / 8)"); ok {
+			return has(conds, "(("+b+" % 8) == 0)=true", "(("+b+" % 8) <= 0)=true")
+		}
+		if cl, isC := v.(*ssa.Call); isC {
+			if h := cl.Call.StaticCallee(); h != nil && inModule(h) && h.Blocks != nil && h.Signature.Results().Len() == 1 {
+				for _, a := range cl.Call.Args {
+					if isBits(c.Path(a, env)) {
+						return c.isCeilDiv8(h, c.calleeEnv(&cl.Call, h, env), isBits, depth+1)
+					}
+				}
+			}
+		}
+		return false
+	}
+	for _, r := range returnsOf(f) {
+		if len(r.Results) != 1 {
+			return false
+		}
+		v := returnedValue(r, 0)
+		if phi, isPhi := v.(*ssa.Phi); isPhi && phi.Block() == r.Block() {
+			for i, e := range phi.Edges {
+				if !one(e, c.edgeConds(phi.Block().Preds[i], phi.Block())) {
+					return false
+				}
+			}
+			continue
+		}
+		if !one(v, c.condsOf(r.Block())) {
+			return false
+		}
+	}
+	return true
 }
 
 // hashOf: a table entry names its hash as the crypto.Hash constant or as the hasher made from it.
